@@ -25,6 +25,11 @@ CHECKS = {
    level_text='TLC checks the automaton\'s own clauses (refused command has no effect, failed SELECT deselects, CLOSE always OK and deselects, LOGOUT = BYE then OK) on every generated step and dumps the complete graph (92 state cores x 86 inputs). The harness drives the real server to every state by a shortest path, sends every input, compares the response class and the state reached (identified by probe sequences: LIST of a per-user marker mailbox, CAPABILITY, FETCH fingerprint, STORE probe for rw/ro) with the model, and compares a full snapshot of the store before/after every refused command; plus length-2 sequences, login + 3 random inputs, TLC -simulate behaviours and seeded walks up to 40 inputs, and the consecutive-BAD limit.',
    level_note='Complete transition cover + state identification; complete under the usual assumption that the implementation has no more relevant states than the model. Where RFC 3501 leaves latitude between NO and BAD the model allows both. Dict backend.',
    design_ref='DESIGN.md section 7 C05'),
+ 'C06': dict(
+   technique='token-level enumeration of command lines and stored messages by TLC (CmdTokens.tla), each concretised and sent to the real IMAP / ManageSieve server in every connection state under a watchdog; every connection transcript validated by TLC against the response-obligation observer Trace_Total.tla',
+   level_text='TLC enumerates every line of command word + <= 2 argument tokens over 40 token kinds (legal spellings, truncated and malformed ones, hostile bytes: unterminated quotes/literals/shift sequences, oversized and negative literal counts, deep nesting, 8-bit, NUL, bad UTF-8, bare LF, glued tokens, 30 kB tokens) - 47,589 IMAP and 6,315 ManageSieve lines - and every message of <= 3 line tokens over 23 kinds (12,719); each IMAP line is sent in the not-authenticated, authenticated and selected state, each sieve line before and after authentication, each message is appended and then fetched with 28 FETCH attributes and searched with 19 SEARCH programs; plus connections that repeat an erroneous line 7 times. Each execution runs under a SIGALRM watchdog and is followed by NOOP on a second connection. TLC checks on every transcript: each line answered by exactly one tagged completion / continuation request / BYE-then-close, no BYE [SERVERBUG], no close without BYE, connection task never dies with an exception, no hang, others still served. Quick tier: seeded sample (2,200 + 500 lines, 60 messages); thorough: all.',
+   level_note='The input quantifier is covered at TOKEN level only: arbitrary and mutated raw byte strings up to 64 KiB are not enumerable by a TLA+ model and no byte-level fuzzer is added (different technique). No prediction of WHICH completion is given. Dict backend (maildir for a slice of the message half in thorough).',
+   design_ref='DESIGN.md section 7 C06'),
  'C09': dict(
    technique='authentication part of Conn.tla (IMAP and ManageSieve instances) checked by TLC; every (state, input) pair over credential classes x mechanisms x TLS/peer configurations executed on the real server, identity probed by per-user marker mailbox / script',
    level_text='TLC checks on every generated step that auth changes only through an exchange whose credentials verify for an existing user and (authzid = authcid or admin role), that LOGIN is refused while LOGINDISABLED is advertised, and that failed, cancelled, malformed, empty or oversized exchanges leave auth unchanged. Every (state, input) pair of the IMAP (19 x 72) and ManageSieve (19 x 90) graphs is executed on the real server (local and remote peer, TLS required or not, before/after STARTTLS), with three provisioned users (two ordinary, one admin); after each input the identity is probed through marker mailboxes / LISTSCRIPTS; plus seeded sequences of failed and successful attempts.',
